@@ -298,7 +298,7 @@ pub fn run_c13(ctx: &mut Ctx) {
         ctx.case("acc", &v2);
         // spelling correction
         let g = ctx.rng.random_bool(0.5);
-        let sa = ctx.rng.random_bool(0.5);
+        let sa = ctx.rng.random_bool(0.5) && i % 6 != 3;
         let k = ctx.rng.random_range(0..=3);
         let mut ts = vec![];
         for _ in 0..k {
@@ -315,6 +315,16 @@ pub fn run_c13(ctx: &mut Ctx) {
                     let from_target = ctx.rng.random_bool(0.5);
                     perturb(ctx, if from_target { &target } else { &input }, s2)
                 }
+            };
+            // an unchanged prediction of an input whose words are those of the target in another order (the longest
+            // common subsequence of the words is not unique): still no true positives
+            let (input, pred) = if i % 6 == 3 && target.len() >= 2 {
+                let mut inp = target.clone();
+                let a = ctx.rng.random_range(0..inp.len() - 1);
+                if ctx.rng.random_bool(0.5) { inp.swap(a, a + 1) } else { inp.rotate_left(a + 1) }
+                (inp.clone(), inp)
+            } else {
+                (input, pred)
             };
             let mut tr = (input.join(" "), pred.join(" "), target.join(" "));
             if i % 25 == 0 {
